@@ -95,11 +95,11 @@ def pub(m, name, conv):
 
 def msgdump(m):
     """what a user sees: the public properties (msg_cls, msg_id, msgmode, payload, length) and the public attributes;
-    the checksum has no public accessor"""
+    the checksum has no accessor of its own: it is read off the end of the public `serialize()`"""
     attrs = ",".join(f"{k}={valstr(v)}" for k, v in m.__dict__.items() if k[0] != "_")
     return (f"cls={pub(m, 'msg_cls', hx)} id={pub(m, 'msg_id', hx)} mode={pub(m, 'msgmode', str)} "
             f"payload={pub(m, 'payload', lambda p: 'None' if p is None else hx(p))} "
-            f"len={pub(m, 'length', lambda n: hx(int(n).to_bytes(2, 'little')))} ck={hx(m._checksum)} ident={ident(m)} attrs=[{attrs}]")
+            f"len={pub(m, 'length', lambda n: hx(int(n).to_bytes(2, 'little')))} ck={pub(m, 'serialize', lambda f: hx(f()[-2:]))} ident={ident(m)} attrs=[{attrs}]")
 
 
 def fulldump(m):
